@@ -50,6 +50,7 @@ type c13world struct {
 	// leaves of the user's own non-comparable node type, by id
 	userLeaves map[int]*c13m
 	nUser      int
+	nBoth      int
 }
 
 type c13interp struct {
@@ -168,6 +169,27 @@ func (w *c13world) gen(d int) *c13m {
 		w.byNode[m.node] = m
 		return m
 	}
+	if !w.deep && !w.wide && d > 0 && w.r.Intn(12) == 0 {
+		// a non-terminal of the USER's own that is also Walkable: Children() lists only some of the nodes below it, its
+		// Walk covers all of them (a node that keeps part of its subtree to itself). The documented order of Walk says
+		// a Walkable node decides how it is walked; the static check rides on Walk.
+		m.kind = 4
+		var hidden, listed []parsley.Node
+		for i, n := 0, 1+w.r.Intn(2); i < n; i++ {
+			c := w.gen(d - 1)
+			m.kids = append(m.kids, c)
+			hidden = append(hidden, c.node)
+		}
+		for i, n := 0, w.r.Intn(3); i < n; i++ {
+			c := w.gen(d - 1)
+			m.kids = append(m.kids, c)
+			listed = append(listed, c.node)
+		}
+		m.node = &c13bothNode{id: m.id, hidden: hidden, listed: listed}
+		w.byNode[m.node] = m
+		w.nBoth++
+		return m
+	}
 	m.kind = 2
 	m.caps = w.r.Intn(4)
 	var ip parsley.Interpreter
@@ -283,6 +305,32 @@ func c13shape(w *c13world, nd parsley.Node) string {
 	return "?"
 }
 
+// c13bothNode: a node type of the user's own that is a parsley.NonTerminalNode (Children, Value) AND parsley.Walkable
+type c13bothNode struct {
+	id             int
+	hidden, listed []parsley.Node
+}
+
+func (b *c13bothNode) Token() string                                  { return "BOTH" }
+func (b *c13bothNode) Schema() interface{}                            { return nil }
+func (b *c13bothNode) Pos() parsley.Pos                               { return parsley.Pos(b.id) }
+func (b *c13bothNode) ReaderPos() parsley.Pos                         { return parsley.Pos(b.id) }
+func (b *c13bothNode) Children() []parsley.Node                       { return b.listed }
+func (b *c13bothNode) Value(interface{}) (interface{}, parsley.Error) { return b.id, nil }
+func (b *c13bothNode) Walk(f func(parsley.Node) bool) bool {
+	for _, n := range b.hidden {
+		if parsley.Walk(n, f) {
+			return true
+		}
+	}
+	for _, n := range b.listed {
+		if parsley.Walk(n, f) {
+			return true
+		}
+	}
+	return false // (parsley.Walk visits the node itself after its Walk method)
+}
+
 // c13valLeaf: a terminal node type of the user's own - a VALUE type that cannot be compared (it carries a slice)
 type c13valLeaf struct {
 	id   int
@@ -391,6 +439,7 @@ func c13one(j run.Job, a *run.Acc, caseSeed int64) {
 		a.Count("nodes bound to the library's own interpreter.Select", int64(w.nSel))
 		a.Count("leaves equal to an earlier leaf of the same tree (same object / same empty position)", int64(w.dupLeaves))
 		a.Count("leaves of a user-defined, non-comparable node type", int64(w.nUser))
+		a.Count("user-defined nodes that are both a non-terminal and Walkable", int64(w.nBoth))
 
 		// ---- Walk: post-order, every node once, stops right after the first true
 		total := nNodes
